@@ -1,5 +1,6 @@
 // K-CLONE (C16, C17), K-DROP (C04, C03), K-KEYS (C02 borrowed lookups), K-FROM (C05 conversions)
 use super::harness::{any_abs, any_lru, build, Lru, N};
+use crate::verif_hooks::gen::build_rev;
 use super::*;
 use crate::verif_hooks::spec::*;
 use crate::verif_hooks::PoisonHasher;
@@ -295,4 +296,103 @@ fn borrowed_lookup_unsized_q() {
     assert!(l.remove(&q[..]) == want, "[C02.borrow] remove(&[u8]) hands back the stored value");
     assert!(l.verif_wf(), "[C03.wf] list well formed after unsized borrowed-key operations");
     drop(l);
+}
+
+
+// ------------------------------------------------------------------ two-run relational contract (C17)
+
+#[kani::proof]
+#[kani::unwind(6)]
+fn two_run_same_history_same_behaviour() {
+    // the same abstract state, built twice with different allocation addresses and a different index slot
+    // order; the same operations; results, eviction choices and iteration order must coincide
+    let a = any_abs(N, 0);
+    let mut x: Lru = build(&a, PoisonHasher, None);
+    let mut y: Lru = build_rev(&a, PoisonHasher, None);
+    let (bx, wx) = x.verif_check();
+    let (by, wy) = y.verif_check();
+    assert!(wx && wy && bx == a && by == a, "[C03.builder] both builders produce the intended well-formed state");
+    let k: u8 = kani::any();
+    let v: u8 = kani::any();
+    let c: usize = kani::any();
+    kani::assume(c <= N);
+    let op: u8 = kani::any();
+    kani::assume(op < 5);
+    kani::cover!(op == 0 && a.n == a.cap && !a.has(k) && a.n >= 2, "two-run: eviction choice");
+    kani::cover!(op == 4 && c < a.n, "two-run: resize discards");
+    let same = match op {
+        0 => pr_of(&x.put(k, v)) == pr_of(&y.put(k, v)),
+        1 => x.get(&k).copied() == y.get(&k).copied(),
+        2 => x.remove(&k) == y.remove(&k),
+        3 => x.remove_lru() == y.remove_lru(),
+        _ => x.resize(c) == y.resize(c),
+    };
+    assert!(same, "[C17.tworun] return values do not depend on allocation addresses or index slot order");
+    let (px, wfx) = x.verif_check();
+    let (py, wfy) = y.verif_check();
+    assert!(wfx && wfy && px == py, "[C17.tworun] eviction choices and recency order do not depend on allocation addresses or index slot order");
+    let cx = x.clone();
+    assert!(cx.verif_abs() == py, "[C17.tworun][C16.order] a clone of one run equals the other run");
+    core::mem::forget(x);
+    core::mem::forget(y);
+    core::mem::forget(cx);
+}
+
+// ------------------------------------------------------------------ conversions (C05)
+
+/// RandomState::new reads OS randomness (not executable under Kani); the index shim never consults the
+/// hasher, so a fixed state is an exact stand-in for this harness.
+#[cfg(feature = "std")]
+fn stub_random_state_new() -> std::collections::hash_map::RandomState {
+    unsafe { core::mem::zeroed() }
+}
+
+#[cfg(feature = "std")]
+#[kani::proof]
+#[kani::unwind(8)]
+#[kani::stub(std::hash::RandomState::new, stub_random_state_new)]
+fn from_iterator_never_panics() {
+    // FromIterator / From<[(K, V); N]> with 0, 1 and 2 pairs (duplicate keys allowed)
+    let (k1, v1, k2, v2): (u8, u8, u8, u8) = kani::any();
+    let which: u8 = kani::any();
+    kani::assume(which < 3);
+    kani::cover!(which == 0, "from: empty iterator");
+    kani::cover!(which == 2 && k1 == k2, "from: duplicate keys");
+    let (l, n): (RawLRU<u8, u8>, usize) = match which {
+        0 => (None::<(u8, u8)>.into_iter().collect(), 0),
+        1 => (Some((k1, v1)).into_iter().collect(), 1),
+        _ => (RawLRU::from([(k1, v1), (k2, v2)]), 2),
+    };
+    assert!(l.len() <= n && (n == 0 || l.len() >= 1), "[C05.from] a conversion never panics and retains at most the given pairs");
+    if which == 1 {
+        assert!(l.peek(&k1) == Some(&v1), "[C05.from][C02.value] a single pair is resident with its value");
+    }
+    if which == 2 {
+        assert!(l.peek(&k2) == Some(&v2), "[C05.from][C02.value] the last pair given is resident with its value");
+    }
+    core::mem::forget(l);
+}
+
+// the remaining public constructors differ from with_hasher / with_on_evict_cb_and_hasher only in the hasher they pass
+// kind: proved (cap ranges over all usize)
+#[cfg(feature = "std")]
+#[kani::proof]
+#[kani::unwind(8)]
+#[kani::stub(std::hash::RandomState::new, stub_random_state_new)]
+fn ctor_default_hasher_variants() {
+    let cap: usize = kani::any();
+    match RawLRU::<u8, u8>::new(cap) {
+        Ok(l) => {
+            assert!(cap != 0 && l.cap() == cap && l.len() == 0 && l.verif_wf(), "[C05.ctor][C01.cap] new(cap) gives an empty well-formed cache of that capacity");
+            core::mem::forget(l);
+        }
+        Err(e) => assert!(cap == 0 && e == CacheError::InvalidSize(0), "[C05.ctor] new rejects exactly capacity 0 with InvalidSize(0)"),
+    }
+    match RawLRU::<u8, u8, DefaultEvictCallback>::with_on_evict_cb(cap, DefaultEvictCallback) {
+        Ok(l) => {
+            assert!(cap != 0 && l.cap() == cap && l.len() == 0 && l.verif_wf(), "[C05.ctor][C15.ctor] with_on_evict_cb(cap, cb) gives an empty well-formed cache of that capacity");
+            core::mem::forget(l);
+        }
+        Err(e) => assert!(cap == 0 && e == CacheError::InvalidSize(0), "[C05.ctor] with_on_evict_cb rejects exactly capacity 0 with InvalidSize(0)"),
+    }
 }
